@@ -528,7 +528,8 @@ fn main() {
                     }
                     match r {
                         Err(e) => {
-                            l.violation("guard_engine", || format!("E4 engine failure on jobs {:?} / {:?}: {e}", gjobs[a], gjobs[b]));
+                            // an engine failure (execution process died, replay diverged) is never a verdict
+                            l.ctx.machinery_error(format!("E4 engine failure on jobs {:?} / {:?}: {e}", gjobs[a], gjobs[b]));
                             return;
                         }
                         Ok(Some((ch, msg, out))) => {
